@@ -928,7 +928,7 @@ fn run(args: &Args, out: &mut dyn Write) -> Stats {
         let n = args.n.max(8);
         let n_batch = (n / 32).max(4);
         let n_demux = n / 5;
-        let adapt: Vec<(u64, u64)> = vec![(0, 0), (1, 0), (0, 1200), (2, 1000), (3, 0), (6, 0), (5, 0), (4, 1400)];
+        let adapt: Vec<(u64, u64)> = vec![(0, 0), (1, 0), (0, 1800), (2, 1000), (3, 0), (6, 0), (5, 0), (4, 1900), (0, 1200)];
         let n_adapt = if args.tier == "thorough" { 24 } else { adapt.len() as u64 };
         let n_cmsg = n - n_batch - n_demux - n_adapt.min(n / 4);
         let fixed: [[u8; 4]; 10] = [
@@ -962,7 +962,9 @@ fn run(args: &Args, out: &mut dyn Write) -> Stats {
             } else if rng.chance(1, 2) {
                 (rng.below(15), 0)
             } else {
-                (2 * rng.below(8), rng.range(900, 1500))
+                // late answers: from the zone where the third transmission may or may not be out yet (2.5-5 t0)
+                // to clearly beyond it (the adaptation is then certain); answered at all up to 2000 ms
+                (2 * rng.below(8), rng.range(900, 2000))
             };
             // one history per thorough run goes on to a silent upstream (16-50 s)
             let silent = args.tier == "thorough" && k == 2;
